@@ -84,6 +84,28 @@ let handle line =
          | Ok fl -> List.iter (fun (f, d) -> Buffer.add_string buf (" " ^ item f d)) fl
          | Err e -> Buffer.add_string buf (" layout-err-" ^ err_s e)) subsets;
        print_string (Buffer.contents buf); print_newline ())
+  | "DECR" :: ed :: comp :: nsub :: a :: b :: sublen :: n :: rest ->
+    (* range decode: subsets a..b of nsub; sublen = bit length of one subset (uncompressed, fixed length) *)
+    let (ds, rest) = take (int_of_string n) rest in
+    let tmpl = List.map z_of_string ds in
+    let hx = (match rest with h :: _ -> h | [] -> "") in
+    let bits = bytes_to_bits (bytes_of_hex hx) in
+    let ni x = nat_of_int (int_of_string x) in
+    let r = if comp = "1" then dec_comp_range (tables ()) (z_of_string ed) fuel tmpl (ni nsub) (ni a) (ni b) bits
+            else dec_plain_range (tables ()) (z_of_string ed) fuel tmpl (ni sublen) (ni a) (ni b) bits in
+    (match r with
+     | Err e -> Printf.printf "DECR err %s\n" (err_s e)
+     | Ok (subsets, _) ->
+       let buf = Buffer.create 256 in
+       Buffer.add_string buf "DECR ok";
+       List.iteri (fun i s ->
+         Buffer.add_string buf (Printf.sprintf " ; S%d" i);
+         List.iter (fun d -> Buffer.add_string buf (Printf.sprintf " %s:%s" (hex_of_n d.d_af) (match d.d_val with VRaw n -> "r" ^ hex_of_n n | VStr s -> "s" ^ hex_of_bytes s))) s) subsets;
+       print_string (Buffer.contents buf); print_newline ())
+  | "MERGE" :: nd :: dpos :: ns :: spos :: nb :: _ ->
+    let ints k base = List.init k (fun i -> base + i) in
+    let r = merge (-1) (ints (int_of_string nd) 100) (nat_of_int (int_of_string dpos)) (ints (int_of_string ns) 200) (nat_of_int (int_of_string spos)) (nat_of_int (int_of_string nb)) in
+    Printf.printf "MERGE %s\n" (String.concat " " (List.map string_of_int r))
   | "SEXP" :: n :: rest ->
     let (ds, more) = take (int_of_string n) rest in
     let tmpl = List.map z_of_string ds in
